@@ -6,7 +6,7 @@
 set -u
 ROOT="$(cd "$(dirname "${BASH_SOURCE[0]}")/.." && pwd)"
 DIR="${1:-/tmp/wt}"; SUF="${2:-b}"
-LAB=/tmp/lab
+LAB="${LAB:-/tmp/lab}"
 LOG="${BENIGN_LOG:-$ROOT/logs/benign_all.log}"; touch "$LOG"
 ALL="C01 C02 C03 C04 C06 C07 C08 C09 C10 C11 C12 C13 C14 C16 C17 C18"
 # checks that exercise code of each crate (a patch can only affect checks that run code of a crate it touches)
